@@ -133,7 +133,9 @@ pub fn main_entry() {
     if let Some(shard) = shard {
         let out = shard_out.unwrap_or_else(|| usage());
         let deadline = Instant::now() + cap;
+        par::set_journal_for(&out);
         let r = prop.worker(tier, shard, deadline);
+        par::journal_clear();
         par::write_shard_result(&out, &r);
         std::process::exit(0);
     }
@@ -175,6 +177,10 @@ fn replay_in_child(prop: &dyn Prop, witness_file: &Path) -> Option<Vec<String>> 
         .output()
         .ok()?;
     let text = String::from_utf8_lossy(&out.stdout);
+    if out.status.code().is_none() || out.status.code() == Some(101) || out.status.code() == Some(134) {
+        // The replay itself died (abort / uncaught panic): reproducible death is what "*.abort" clauses claim.
+        return Some(vec!["<died>".to_string()]);
+    }
     let mut sigs: Vec<String> = text
         .lines()
         .filter(|l| l.starts_with("REPLAY ") && l.contains("signature="))
@@ -231,6 +237,7 @@ fn coordinate(prop: &dyn Prop, tier: Tier, jobs: Option<usize>, cap: Duration) -
         let b = replay_in_child(prop, &path);
         match (a, b) {
             (Some(a), Some(b)) if a == b && a.iter().any(|s| *s == v.signature) => {}
+            (Some(a), Some(b)) if a == b && a == vec!["<died>".to_string()] && v.clause.ends_with("abort") => {}
             (a, b) => {
                 eprintln!(
                     "MACHINERY: violation {} does not replay deterministically: first {:?}, second {:?} ({})",
